@@ -197,7 +197,7 @@ func c04Symbol(k int, seq int) c04Pkt {
 
 func runC04(cfg *runCfg) error {
 	r := rand.New(rand.NewSource(cfg.seed))
-	cf := newCasesFile("C04", "Codec", "Inbound", "CheckC04")
+	cf := newCasesFile("C04", "Codec", "Inbound", "InboundH", "CheckC04")
 	m := &meta{Property: "C04", Distribution: map[string]interface{}{}, Families: map[string][]interface{}{}}
 	var cases []string
 	distinct := map[string]bool{}
@@ -333,9 +333,13 @@ func runC04(cfg *runCfg) error {
 	cf.def("in_cases", "list (bool * list in_pkt * list in_event)", cList(cases))
 	cf.result("V_in", "c04_spec_violations in_cases")
 	cf.result("M_in", "c04_model_mismatches in_cases")
-	m.Evaluations = len(cases)
+	nSeg, err := c04hFamily(cfg, r, cf, m)
+	if err != nil {
+		return err
+	}
+	m.Evaluations = len(cases) + nSeg
 	m.DistinctNontrivial = nontrivial
-	m.Rule = fmt.Sprintf("every sequence up to length %d over a 9-symbol alphabet (QoS0, QoS1 id1 fresh/dup, QoS2 id1 fresh/dup, QoS2 id2, PUBREL 1/2/3) with a handler (and without for length<=2), plus %d random sequences of 4-15 packets with ids from a pool of three; fed as one byte stream to a connected BaseClient; non-trivial = distinct sequence containing a QoS 2 PUBLISH and a PUBREL", L, nRand)
+	m.Rule = fmt.Sprintf("every sequence up to length %d over a 9-symbol alphabet (QoS0, QoS1 id1 fresh/dup, QoS2 id1 fresh/dup, QoS2 id2, PUBREL 1/2/3) with a handler (and without for length<=2), plus %d random sequences of 4-15 packets with ids from a pool of three; fed as one byte stream to a connected BaseClient; non-trivial = distinct sequence containing a QoS 2 PUBLISH and a PUBREL; family seg: %d histories in which the handler is registered late, removed or replaced between segments of the stream (BaseClient directly, and RetryClient with the first segment in the same burst as CONNACK while the ConnState callback is slow), hand-overs tagged with the receiving handler", L, nRand, nSeg)
 	m.Distribution["enumerated"] = nEnum
 	m.Distribution["random"] = nRand
 	m.Distribution["packet_kinds"] = kinds
